@@ -1,6 +1,7 @@
 import DspVerif.Props.C07
 import DspVerif.Gen.StepsFir
 import DspVerif.Gen.CtorFir
+import DspVerif.Gen.StepsFftFilter
 import DspVerif.Lib.RealFn
 import DspVerif.Lib.GenBridge
 /-!
@@ -274,5 +275,412 @@ theorem gen_fir_from_ctor_cmplx (h x : Array (Cx ℝ)) (hh : 1 ≤ h.size) :
 
 end
 /-! END steps3 constructors -/
+
+/-! BEGIN steps3 fftfilter -/
+/-! ## Constructors and `process` of `FftFilter` (regenerated: `Gen/StepsFftFilter.lean`) -/
+
+noncomputable section
+
+/-! ### helpers -/
+
+theorem foldl_range_rel {A B : Type} (R : Nat → A → B → Prop) (f : A → Nat → A) (g : B → Nat → B) (n : Nat)
+    (h : ∀ k a b, k < n → R k a b → R (k + 1) (f a k) (g b k)) (a : A) (b : B) (h0 : R 0 a b) :
+    R n ((List.range n).foldl f a) ((List.range n).foldl g b) := by
+  induction n with
+  | zero => exact h0
+  | succ n ih =>
+    rw [List.range_succ, List.foldl_append, List.foldl_append]
+    simp only [List.foldl_cons, List.foldl_nil]
+    exact h n _ _ (Nat.lt_succ_self n) (ih (fun k a b hk => h k a b (Nat.lt_succ_of_lt hk)))
+
+theorem array_foldl_eq_range {β σ : Type} (d : β) (f : σ → β → σ) (xs : Array β) (s : σ) :
+    xs.foldl f s = (List.range xs.size).foldl (fun acc k => f acc (xs.getD k d)) s := by
+  rw [← Array.foldl_toList]
+  have : ∀ (l : List β) (s : σ), l.foldl f s = (List.range l.length).foldl (fun acc k => f acc (l.getD k d)) s := by
+    intro l
+    induction l using List.reverseRecOn with
+    | nil => intro s; rfl
+    | append_singleton l x ih =>
+      intro s
+      rw [List.foldl_append, List.length_append, List.length_singleton, List.range_succ, List.foldl_append]
+      simp only [List.foldl_cons, List.foldl_nil]
+      rw [ih]
+      congr 1
+      · apply foldl_range_congr
+        intro v k hk
+        simp only [List.getD_eq_getElem?_getD, List.getElem?_append_left hk]
+      · simp [List.getD_eq_getElem?_getD]
+  rw [this xs.toList s, Array.length_toList]
+  apply foldl_range_congr
+  intro v k _
+  rw [getD_toList]
+
+theorem succ_div_mod (t n : ℕ) (hn : 0 < n) :
+    (t % n + 1 = n → (t + 1) / n = t / n + 1 ∧ (t + 1) % n = 0) ∧
+    (t % n + 1 ≠ n → (t + 1) / n = t / n ∧ (t + 1) % n = t % n + 1) := by
+  have h1 := Nat.div_add_mod t n
+  have h2 := Nat.mod_lt t hn
+  constructor
+  · intro h
+    have e : t + 1 = n * (t / n + 1) := by rw [Nat.mul_add, Nat.mul_one]; omega
+    rw [e]
+    exact ⟨Nat.mul_div_cancel_left _ hn, Nat.mul_mod_right _ _⟩
+  · intro h
+    have hlt : t % n + 1 < n := by omega
+    have e : t + 1 = n * (t / n) + (t % n + 1) := by omega
+    rw [e]
+    constructor
+    · rw [Nat.mul_add_div hn, Nat.div_eq_of_lt hlt]; simp
+    · rw [Nat.mul_add_mod, Nat.mod_eq_of_lt hlt]
+
+/-! ### `FftFilter::process` -/
+
+/-- the generated state of a model state -/
+def toGenF (s : FftState (Cx ℝ)) : Gen.FftFilterState ℝ := ⟨s.x, s.H, s.olap, (s.nx : Int), (s.m : Int), (s.n : Int)⟩
+
+/-- sizes and counters that the constructor establishes and the sample loop keeps: `_n ≥ 1`, `_nx < _n`, `_olap` has `_m - 1` cells,
+`_m - 1 ≤ _n` (the overlap fits into one block) -/
+def SInv (s : FftState (Cx ℝ)) : Prop := 1 ≤ s.n ∧ s.nx < s.n ∧ s.olap.size = s.m - 1 ∧ s.m ≤ s.n + 1
+
+/-- `arr_cmplx * arr_cmplx` (generated value) is the model's element-wise product -/
+theorem arrMulCC_eq (a b : Array (Cx ℝ)) : Gen.arrMulCC a b = mulv (0 : Cx ℝ) a b := by
+  unfold Gen.arrMulCC mulv
+  apply Array.ext
+  · simp
+  · intro i h1 h2
+    simp only [Array.size_ofFn] at h1
+    simp [Cx.mulAssign, gzeroC_eq, Array.getD_eq_getD_getElem?]
+
+/-- first inner loop of a completed block: `pr[i] = ry[i]`, `i < _n` -/
+theorem fft_loop1 (r ry : Array (Cx ℝ)) (p n : ℕ) :
+    ((List.range n).foldl (Gen.fftFilterProcess_loop1 (p : Int) ry) r).size = r.size ∧
+    ∀ j, ((List.range n).foldl (Gen.fftFilterProcess_loop1 (p : Int) ry) r).getD j 0 =
+      if p ≤ j ∧ j < p + n ∧ j < r.size then ry.getD (j - p) 0 else r.getD j 0 := by
+  have hf : (Gen.fftFilterProcess_loop1 (p : Int) ry : Array (Cx ℝ) → Nat → Array (Cx ℝ)) =
+      fun a k => a.setIfInBounds (p + k) ((fun (k : Nat) (_ : Cx ℝ) => ry.getD k 0) k (a.getD (p + k) 0)) := by
+    funext a k
+    simp only [Gen.fftFilterProcess_loop1, Int.ofNat_eq_natCast, arrGet_natCast, gzeroC_eq]
+    exact ptrSet_eq _ _ (p + k) _ (by push_cast; ring)
+  rw [hf]
+  exact foldl_cell_row (0 : Cx ℝ) (fun (k : Nat) (_ : Cx ℝ) => ry.getD k 0) p r n
+
+/-- second inner loop of a completed block: `pr[i] += _olap[i]; _olap[i] = ry[i + _n]`, `i < _m - 1` — the two updates touch different
+objects and iteration `i` reads `_olap[i]` before any iteration writes it: the loop is the two loops run one after the other -/
+theorem fft_loop2 (r ry : Array (Cx ℝ)) (g : Gen.FftFilterState ℝ) (p n : ℕ) (hn : g.n = (n : Int)) :
+    ∀ c, c ≤ g.olap.size →
+      ((List.range c).foldl (Gen.fftFilterProcess_loop2 (p : Int) ry) (r, g)).2 =
+        { g with olap := (List.range c).foldl (fun (o : Array (Cx ℝ)) i => o.setIfInBounds i ((fun (_ : Cx ℝ) (i : Nat) => ry.getD (i + n) 0) (o.getD i 0) i)) g.olap } ∧
+      ((List.range c).foldl (Gen.fftFilterProcess_loop2 (p : Int) ry) (r, g)).1 =
+        (List.range c).foldl (fun (a : Array (Cx ℝ)) k =>
+          a.setIfInBounds (p + k) ((fun (k : Nat) (old : Cx ℝ) => old + g.olap.getD k 0) k (a.getD (p + k) 0))) r := by
+  intro c
+  induction c with
+  | zero => intro _; exact ⟨rfl, rfl⟩
+  | succ c ih =>
+    intro hc
+    obtain ⟨h1, h2⟩ := ih (by omega)
+    rw [List.range_succ, List.foldl_append, List.foldl_append, List.foldl_append]
+    simp only [List.foldl_cons, List.foldl_nil]
+    generalize hG : (List.range c).foldl (Gen.fftFilterProcess_loop2 (p : Int) ry) (r, g) = G at h1 h2 ⊢
+    obtain ⟨Gr, Gs⟩ := G
+    simp only at h1 h2
+    subst h1 h2
+    have hold := (foldl_set_inv (0 : Cx ℝ) (fun (_ : Cx ℝ) (i : Nat) => ry.getD (i + n) 0) g.olap.size g.olap rfl c (by omega)).2 c
+    rw [if_neg (by omega)] at hold
+    simp only [Gen.fftFilterProcess_loop2, Int.ofNat_eq_natCast, arrGet_natCast, arrSet_natCast, gzeroC_eq, Cx.addAssign, hn]
+    refine ⟨?_, ?_⟩
+    · first
+        | (congr 1; done)
+        | (congr 1; rw [arrGet_eq _ _ _ (c + n) (by push_cast; ring)])
+    · rw [ptrSet_eq _ _ (p + c) _ (by push_cast; ring), ptrGet_eq _ _ _ (p + c) (by push_cast; ring), hold]
+
+/-- the cells a completed block writes: `fftBlock` at `[p, p + n)`, everything else untouched; the new `_olap` is `fftTail` -/
+theorem fft_block (r ry : Array (Cx ℝ)) (g : Gen.FftFilterState ℝ) (p n m : ℕ) (hn : g.n = (n : Int)) (hm : g.m = (m : Int))
+    (hol : g.olap.size = m - 1) (hmn : m ≤ n + 1) (hfit : p + n ≤ r.size) :
+    let R := (List.range (m - 1)).foldl (Gen.fftFilterProcess_loop2 (p : Int) ry)
+      ((List.range n).foldl (Gen.fftFilterProcess_loop1 (p : Int) ry) r, g)
+    R.2 = { g with olap := fftTail (0 : Cx ℝ) n m ry } ∧ R.1.size = r.size ∧
+      ∀ j, R.1.getD j 0 = if p ≤ j ∧ j < p + n then (fftBlock (0 : Cx ℝ) n m ry g.olap).getD (j - p) 0 else r.getD j 0 := by
+  intro R
+  obtain ⟨a1, a2⟩ := fft_loop1 r ry p n
+  obtain ⟨b1, b2⟩ := fft_loop2 ((List.range n).foldl (Gen.fftFilterProcess_loop1 (p : Int) ry) r) ry g p n hn (m - 1) (by omega)
+  obtain ⟨c1, c2⟩ := foldl_cell_row (0 : Cx ℝ) (fun (k : Nat) (old : Cx ℝ) => old + g.olap.getD k 0) p
+    ((List.range n).foldl (Gen.fftFilterProcess_loop1 (p : Int) ry) r) (m - 1)
+  refine ⟨?_, ?_, ?_⟩
+  · show R.2 = _
+    rw [b1]
+    congr 1
+    have := foldl_set_eq_ofFn (0 : Cx ℝ) (fun (_ : Cx ℝ) (i : Nat) => ry.getD (i + n) 0) g.olap.size g.olap rfl
+    rw [hol] at this
+    rw [this]
+    rfl
+  · show R.1.size = _
+    rw [b2, c1, a1]
+  · intro j
+    show R.1.getD j 0 = _
+    rw [b2, c2 j, a1, a2 j]
+    unfold fftBlock
+    by_cases hj : p ≤ j ∧ j < p + n
+    · have hjr : j < r.size := by omega
+      rw [if_pos hj, getD_ofFn, dif_pos (by omega)]
+      by_cases hk : j - p < m - 1
+      · rw [if_pos ⟨hj.1, by omega, hjr⟩, if_pos ⟨hj.1, hj.2, hjr⟩]
+        simp only [hk, if_true]
+      · rw [if_neg (by omega), if_pos ⟨hj.1, hj.2, hjr⟩]
+        simp only [hk, if_false]
+    · rw [if_neg hj]
+      have h1 : ¬ (p ≤ j ∧ j < p + (m - 1) ∧ j < r.size) := by omega
+      have h2 : ¬ (p ≤ j ∧ j < p + n ∧ j < r.size) := by tauto
+      rw [if_neg h1, if_neg h2]
+
+/-- the relation the sample loop keeps between the generated accumulator `(members, r, pr - r.data())` and the model's `(state, out)`
+after `k` samples: same members, the output pointer is at `|out|`, `r` (allocated with its final length `N`) agrees with `out` on
+`[0, |out|)`, and the block / position counters are `(k + nx₀) div n`, `(k + nx₀) mod n` -/
+def FRel (N n m nx0 : ℕ) (k : ℕ) (G : Gen.FftFilterState ℝ × Array (Cx ℝ) × Int) (so : FftState (Cx ℝ) × Array (Cx ℝ)) : Prop :=
+  G.1 = toGenF so.1 ∧ G.2.2 = (so.2.size : Int) ∧ G.2.1.size = N ∧ (∀ j, j < so.2.size → G.2.1.getD j 0 = so.2.getD j 0) ∧
+    SInv so.1 ∧ so.1.n = n ∧ so.1.m = m ∧ so.2.size = (k + nx0) / n * n ∧ so.1.nx = (k + nx0) % n
+
+theorem fft_step_rel (fft ifft : Array (Cx ℝ) → Array (Cx ℝ)) (xs : Array (Cx ℝ)) (n m nx0 : ℕ) (k : ℕ) (hk : k < xs.size)
+    (G : Gen.FftFilterState ℝ × Array (Cx ℝ) × Int) (so : FftState (Cx ℝ) × Array (Cx ℝ))
+    (h : FRel ((xs.size + nx0) / n * n) n m nx0 k G so) :
+    FRel ((xs.size + nx0) / n * n) n m nx0 (k + 1) (Gen.fftFilterProcess_loop3 xs fft ifft G k)
+      (fftStep (0 : Cx ℝ) fft ifft so (xs.getD k 0)) := by
+  obtain ⟨G1, Gr, Gp⟩ := G
+  obtain ⟨s, out⟩ := so
+  obtain ⟨e1, e2, e3, e4, hinv, en, em, esz, enx⟩ := h
+  simp only at e1 e2 e3 e4 en em esz enx
+  obtain ⟨i1, i2, i3, i4⟩ := hinv
+  simp only at i1 i2 i3 i4
+  subst e1
+  have hn0 : 0 < n := by omega
+  obtain ⟨dA, dB⟩ := succ_div_mod (k + nx0) n hn0
+  have hval : Gen.ptrGet (Gen.zeroC : Cx ℝ) xs (Int.ofNat k) = xs.getD k 0 := by
+    rw [Int.ofNat_eq_natCast, ptrGet_natCast, gzeroC_eq]
+  unfold Gen.fftFilterProcess_loop3 fftStep
+  simp only [hval, toGenF, arrSet_natCast]
+  by_cases hw : s.nx + 1 = s.n
+  · -- a block is complete
+    have hw' : ((s.nx : Int) + 1 = (s.n : Int)) := by exact_mod_cast hw
+    obtain ⟨d1, d2⟩ := dA (by omega)
+    rw [if_pos hw', if_pos hw]
+    simp only [arrMulCC_eq, Int.toNat_natCast]
+    have hm1 : ((s.m : Int) - 1).toNat = s.m - 1 := by omega
+    rw [hm1]
+    set ry := ifft (mulv (0 : Cx ℝ) (fft (s.x.setIfInBounds s.nx (xs.getD k 0))) s.H) with hry
+    have hfit : out.size + s.n ≤ Gr.size := by
+      rw [e3, esz, en]
+      have : (k + nx0) / n + 1 ≤ (xs.size + nx0) / n := by
+        rw [← d1]; exact Nat.div_le_div_right (by omega)
+      calc (k + nx0) / n * n + n = ((k + nx0) / n + 1) * n := by ring
+        _ ≤ (xs.size + nx0) / n * n := Nat.mul_le_mul_right n this
+    obtain ⟨b1, b2, b3⟩ := fft_block Gr ry
+      ⟨s.x.setIfInBounds s.nx (xs.getD k 0), s.H, s.olap, (s.nx : Int) + 1, (s.m : Int), (s.n : Int)⟩ out.size s.n s.m rfl rfl i3 i4 hfit
+    rw [e2]
+    simp only at b1 b2 b3
+    refine ⟨?_, ?_, ?_, ?_, ?_, en, em, ?_, ?_⟩
+    · simp only [b1]; rfl
+    · simp only [b1, Array.size_append]
+      have : (fftBlock (0 : Cx ℝ) s.n s.m ry s.olap).size = s.n := by simp [fftBlock]
+      rw [this]; push_cast; ring
+    · simp only [b2, e3]
+    · intro j hj
+      simp only [Array.size_append] at hj
+      have hbs : (fftBlock (0 : Cx ℝ) s.n s.m ry s.olap).size = s.n := by simp [fftBlock]
+      rw [hbs] at hj
+      simp only
+      rw [b3 j]
+      by_cases hjo : j < out.size
+      · rw [if_neg (by omega), e4 j hjo]
+        simp [Array.getD_eq_getD_getElem?, Array.getElem?_append, hjo]
+      · rw [if_pos (by omega)]
+        simp only [Array.getD_eq_getD_getElem?, Array.getElem?_append, hjo, if_false]
+    · exact ⟨i1, by show 0 < s.n; omega, by simp [fftTail], i4⟩
+    · simp only [Array.size_append]
+      have : (fftBlock (0 : Cx ℝ) s.n s.m ry s.olap).size = s.n := by simp [fftBlock]
+      rw [this, esz, show k + 1 + nx0 = k + nx0 + 1 by ring, d1, en]; ring
+    · show 0 = (k + 1 + nx0) % n
+      rw [show k + 1 + nx0 = k + nx0 + 1 by ring, d2]
+  · have hw' : ¬ ((s.nx : Int) + 1 = (s.n : Int)) := by intro e; exact hw (by exact_mod_cast e)
+    obtain ⟨d1, d2⟩ := dB (by omega)
+    rw [if_neg hw', if_neg hw]
+    refine ⟨?_, e2, e3, e4, ⟨i1, by show s.nx + 1 < s.n; omega, i3, i4⟩, en, em, ?_, ?_⟩
+    · simp only [toGenF]; push_cast; rfl
+    · show out.size = (k + 1 + nx0) / n * n
+      rw [show k + 1 + nx0 = k + nx0 + 1 by ring, d1]; exact esz
+    · show s.nx + 1 = (k + 1 + nx0) % n
+      rw [show k + 1 + nx0 = k + nx0 + 1 by ring, d2, enx]
+
+/-- **bridge, `FftFilter::process(const arr_cmplx&)`, one call.**  For every pair of transforms (parameters), every state with the
+structural invariant `SInv` (which the constructor establishes: `fftInit_SInv`) and every frame: the GENERATED `process` — the output
+array allocated at its final length, the range-based sample loop, the block buffer `_x[_nx]`, and for every completed block the
+transforms, the two copy loops through the moving output pointer `pr` and the overlap hand-over — returns the model's `fftProcess`
+(same members, same output). -/
+theorem fftFilterProcess_eq (fft ifft : Array (Cx ℝ) → Array (Cx ℝ)) (s : FftState (Cx ℝ)) (hs : SInv s) (xs : Array (Cx ℝ)) :
+    Gen.fftFilterProcess fft ifft (toGenF s) xs =
+      (toGenF (fftProcess (0 : Cx ℝ) fft ifft s xs).1, (fftProcess (0 : Cx ℝ) fft ifft s xs).2) := by
+  unfold Gen.fftFilterProcess fftProcess
+  rw [array_foldl_eq_range (0 : Cx ℝ) (fftStep (0 : Cx ℝ) fft ifft) xs (s, #[])]
+  simp only [Gen.arrSize, Int.ofNat_eq_natCast, Int.toNat_natCast, toGenF, Gen.arrNew]
+  have hn0 : 0 < s.n := hs.1
+  have hN : (Int.tdiv ((xs.size : Int) + (s.nx : Int)) (s.n : Int) * (s.n : Int)).toNat = (xs.size + s.nx) / s.n * s.n := by
+    rw [show ((xs.size : Int) + (s.nx : Int)) = ((xs.size + s.nx : ℕ) : Int) by push_cast; ring, Int.tdiv_eq_ediv_of_nonneg (by omega)]
+    rw [show (((xs.size + s.nx : ℕ) : Int) / (s.n : Int)) * (s.n : Int) = (((xs.size + s.nx) / s.n * s.n : ℕ) : Int) by push_cast; rfl]
+    exact Int.toNat_natCast _
+  have hN' : (Int.tdiv ((s.nx : Int) + (xs.size : Int)) (s.n : Int) * (s.n : Int)).toNat = (xs.size + s.nx) / s.n * s.n := by
+    rw [add_comm]; exact hN
+  first
+    | rw [hN]
+    | rw [hN']
+  have key := foldl_range_rel (FRel ((xs.size + s.nx) / s.n * s.n) s.n s.m s.nx)
+    (Gen.fftFilterProcess_loop3 xs fft ifft) (fun acc k => fftStep (0 : Cx ℝ) fft ifft acc (xs.getD k 0)) xs.size
+    (fun k a b hk hab => fft_step_rel fft ifft xs s.n s.m s.nx k hk a b hab)
+    (toGenF s, Array.replicate ((xs.size + s.nx) / s.n * s.n) Gen.zeroC, (0 : Int)) (s, #[])
+    ⟨rfl, by simp, by simp, by intro j hj; simp at hj, hs, rfl, rfl, by
+      simp only [Array.size_empty, Nat.zero_add]
+      rw [Nat.div_eq_of_lt hs.2.1]; simp, by
+      simp only [Nat.zero_add]; exact (Nat.mod_eq_of_lt hs.2.1).symm⟩
+  obtain ⟨k1, k2, k3, k4, _, _, _, k8, _⟩ := key
+  simp only [toGenF] at k1 k2 k3 k4 k8 ⊢
+  generalize (List.range xs.size).foldl (Gen.fftFilterProcess_loop3 xs fft ifft)
+    (toGenF s, Array.replicate ((xs.size + s.nx) / s.n * s.n) Gen.zeroC, (0 : Int)) = G at k1 k2 k3 k4 ⊢
+  generalize (List.range xs.size).foldl (fun acc k => fftStep (0 : Cx ℝ) fft ifft acc (xs.getD k 0)) (s, #[]) = M at k1 k2 k3 k4 k8 ⊢
+  obtain ⟨G1, Gr, Gp⟩ := G
+  obtain ⟨Ms, Mo⟩ := M
+  simp only at k1 k2 k3 k4 k8 ⊢
+  rw [k1]
+  congr 1
+  apply ext_getD (0 : Cx ℝ)
+  · rw [k3, k8]
+  · intro j hj
+    rw [k3, ← k8] at hj
+    exact k4 j hj
+
+/-! ### the constructors -/
+
+/-- `conj(const arr_cmplx&)` of lib/math.cpp (generated) is the element-wise conjugate -/
+theorem conjArr_eq (x : Array (Cx ℝ)) : Gen.conjArr x = x.map Cx.conj := by
+  unfold Gen.conjArr
+  simp only [Gen.arrSize, Int.ofNat_eq_natCast, Int.toNat_natCast]
+  have key := foldl_set_eq_ofFn (0 : Cx ℝ) (fun (old : Cx ℝ) (_ : Nat) => ({ old with im := -old.im } : Cx ℝ)) x.size x rfl
+  have hf : (Gen.conjArr_loop1 : Array (Cx ℝ) → Nat → Array (Cx ℝ)) =
+      fun a i => a.setIfInBounds i ({ a.getD i 0 with im := -(a.getD i 0).im } : Cx ℝ) := by
+    funext a i
+    simp only [Gen.conjArr_loop1, Int.ofNat_eq_natCast, arrSet_natCast, arrGet_natCast, gzeroC_eq]
+  rw [hf]
+  refine key.trans ?_
+  apply Array.ext
+  · simp
+  · intro i h1 h2
+    simp only [Array.size_ofFn] at h1
+    simp [getD_of_lt _ _ _ h1, Cx.conj]
+
+/-- `real(const arr_cmplx&)` of lib/math.cpp (generated) is the element-wise real part -/
+theorem realArr_eq (x : Array (Cx ℝ)) : Gen.realArr x = reV x := by
+  unfold Gen.realArr reV
+  simp only [Gen.arrNew, Gen.arrSize, Int.ofNat_eq_natCast, Int.toNat_natCast]
+  have key := foldl_set_eq_ofFn (0 : ℝ) (fun (_ : ℝ) (k : Nat) => (x.getD k Gen.zeroC).re) x.size
+    (Array.replicate x.size Gen.zeroR) (by simp)
+  have hf : (Gen.realArr_loop1 x : Array ℝ → Nat → Array ℝ) = fun a i => a.setIfInBounds i (x.getD i Gen.zeroC).re := by
+    funext a i
+    simp only [Gen.realArr_loop1, Int.ofNat_eq_natCast, arrSet_natCast, arrGet_natCast]
+  rw [hf]
+  refine key.trans ?_
+  apply Array.ext
+  · simp
+  · intro i h1 h2
+    simp only [Array.size_ofFn] at h1
+    simp [getD_of_lt _ _ _ h1]
+
+/-- `complex(const arr_real&)` (pinned primitive) is the model's `ofRealV` -/
+theorem arrComplex_eq (x : Array ℝ) : Gen.arrComplex x = ofRealV x := by
+  unfold Gen.arrComplex ofRealV
+  simp
+
+/-- **bridge, `FftFilter::FftFilter(const arr_cmplx& h)`:** with `nextpow2` and `fft(x, n)` instantiated by anything that agrees with
+the model's `nextpow2` on naturals and with "zero-pad to `n`, then transform" on `|x| ≤ n`, the generated constructor
+(`_m{h.size()}`, `fft_len = 1L << nextpow2(2 m)`, `_n = fft_len - m + 1`, `_olap`, `_h = fft(conj(h), fft_len)`, `_x`) leaves the
+model's `fftInit`, for EVERY tap vector -/
+theorem fftFilterCtor_eq (np : Int → Int) (fftN : Array (Cx ℝ) → Int → Array (Cx ℝ)) (fft : Array (Cx ℝ) → Array (Cx ℝ))
+    (hnp : ∀ k : ℕ, np (k : Int) = (nextpow2 k : Int))
+    (hfft : ∀ (x : Array (Cx ℝ)) (n : ℕ), x.size ≤ n → fftN x (n : Int) = fft (zeropad (0 : Cx ℝ) x n))
+    (h : Array (Cx ℝ)) :
+    Gen.fftFilterCtor np fftN h = toGenF (fftInit (0 : Cx ℝ) Cx.conj fft h) := by
+  have hL := C07.le_two_pow_nextpow2 (2 * h.size)
+  unfold Gen.fftFilterCtor fftInit toGenF
+  simp only [Gen.arrSize, Int.ofNat_eq_natCast]
+  have h2 : ((2 : Int) * (h.size : Int)) = ((2 * h.size : ℕ) : Int) := by push_cast; ring
+  have hshl : Gen.shl1 (np ((2 : Int) * (h.size : Int))) = ((2 ^ nextpow2 (2 * h.size) : ℕ) : Int) := by
+    rw [h2, hnp]; simp [Gen.shl1]
+  rw [hshl]
+  have hconj : (Gen.conjArr h).size ≤ 2 ^ nextpow2 (2 * h.size) := by rw [conjArr_eq]; simp; omega
+  rw [hfft _ _ hconj, conjArr_eq]
+  have e1 : Gen.arrComplex (Gen.arrNew (Gen.zeroR : ℝ) ((2 ^ nextpow2 (2 * h.size) : ℕ) : Int)) =
+      Array.replicate (2 ^ nextpow2 (2 * h.size)) (0 : Cx ℝ) := by
+    unfold Gen.arrComplex Gen.arrNew
+    rw [Int.toNat_natCast, Array.map_replicate]
+    simp only [Gen.zeroR, fill0C_eq]
+  have e2 : Gen.arrComplex (Gen.arrNew (Gen.zeroR : ℝ) ((h.size : Int) - 1)) = Array.replicate (h.size - 1) (0 : Cx ℝ) := by
+    have : ((h.size : Int) - 1).toNat = h.size - 1 := by omega
+    unfold Gen.arrComplex Gen.arrNew
+    rw [this, Array.map_replicate]
+    simp only [Gen.zeroR, fill0C_eq]
+  rw [e1, e2]
+  congr 1
+  omega
+
+/-- the constructed state has the structural invariant of the sample loop (at least one tap) -/
+theorem fftInit_SInv (fft : Array (Cx ℝ) → Array (Cx ℝ)) (h : Array (Cx ℝ)) (hm : 1 ≤ h.size) :
+    SInv (fftInit (0 : Cx ℝ) Cx.conj fft h) := by
+  have hL := C07.le_two_pow_nextpow2 (2 * h.size)
+  refine ⟨?_, ?_, ?_, ?_⟩ <;> simp only [fftInit, Array.size_replicate] <;> omega
+
+/-- **T07.2 from the GENERATED constructor through the GENERATED `process`, `FftFilter(arr_cmplx)`.**  For every tap vector with at
+least one tap and every transform pair satisfying the circular-convolution theorem at the one length used (C01 / C02): construct by the
+regenerated constructor, call the regenerated `process`: it emits `⌊len/_n⌋·_n` samples, each equal to the sample of
+`FirFilter<cmplx_t>` at the same position. -/
+theorem gen_fftfilter_from_ctor_cmplx (np : Int → Int) (fftN : Array (Cx ℝ) → Int → Array (Cx ℝ)) (fft ifft : Array (Cx ℝ) → Array (Cx ℝ))
+    (hnp : ∀ k : ℕ, np (k : Int) = (nextpow2 k : Int))
+    (hfft : ∀ (x : Array (Cx ℝ)) (n : ℕ), x.size ≤ n → fftN x (n : Int) = fft (zeropad (0 : Cx ℝ) x n))
+    (h : Array (Cx ℝ)) (hm : 1 ≤ h.size) (H : C07.CircConv fft ifft (2 ^ nextpow2 (2 * h.size))) (xs : Array (Cx ℝ)) :
+    let y := (Gen.fftFilterProcess fft ifft (Gen.fftFilterCtor np fftN h) xs).2
+    y.size = xs.size / (fftInitC fft h).n * (fftInitC fft h).n ∧
+    ∀ i, i < y.size → y.getD i 0 = (firProcessC (firInitC h) xs).2.getD i 0 := by
+  intro y
+  have hy : y = (fftProcessC fft ifft (fftInitC fft h) xs).2 := by
+    show (Gen.fftFilterProcess fft ifft (Gen.fftFilterCtor np fftN h) xs).2 = _
+    rw [fftFilterCtor_eq np fftN fft hnp hfft h, fftFilterProcess_eq fft ifft _ (fftInit_SInv fft h hm) xs]
+    simp only [fftProcessC, fftInitC, Cx.zeroC_eq]
+  rw [hy]
+  exact C07.fftfilter_eq_fir_cmplx fft ifft h hm H xs
+
+/-- **T07.2 from the GENERATED constructor / `process`, real entry points** (`FftFilter(const arr_real& h) : FftFilter(complex(h))`,
+`process(const arr_real& x) = real(process(complex(x)))`) -/
+theorem gen_fftfilter_from_ctor_real (np : Int → Int) (fftN : Array (Cx ℝ) → Int → Array (Cx ℝ)) (fft ifft : Array (Cx ℝ) → Array (Cx ℝ))
+    (hnp : ∀ k : ℕ, np (k : Int) = (nextpow2 k : Int))
+    (hfft : ∀ (x : Array (Cx ℝ)) (n : ℕ), x.size ≤ n → fftN x (n : Int) = fft (zeropad (0 : Cx ℝ) x n))
+    (h : Array ℝ) (hm : 1 ≤ h.size) (H : C07.CircConv fft ifft (2 ^ nextpow2 (2 * h.size))) (xs : Array ℝ) :
+    let y := (Gen.fftFilterProcessR fft ifft (Gen.fftFilterCtorR np fftN h) xs).2
+    y.size = xs.size / (fftInitR fft h).n * (fftInitR fft h).n ∧
+    ∀ i, i < y.size → y.getD i 0 = (firProcessR (firInitR h) xs).2.getD i 0 := by
+  intro y
+  have hsz : (ofRealV h).size = h.size := by simp [ofRealV]
+  have hy : y = (fftProcessR fft ifft (fftInitR fft h) xs).2 := by
+    show (Gen.fftFilterProcessR fft ifft (Gen.fftFilterCtorR np fftN h) xs).2 = _
+    unfold Gen.fftFilterProcessR Gen.fftFilterCtorR
+    simp only [arrComplex_eq, realArr_eq]
+    rw [fftFilterCtor_eq np fftN fft hnp hfft (ofRealV h),
+      fftFilterProcess_eq fft ifft _ (fftInit_SInv fft (ofRealV h) (by rw [hsz]; exact hm)) (ofRealV xs)]
+    simp only [fftProcessR, fftInitR, fftProcessC, fftInitC, Cx.zeroC_eq]
+  rw [hy]
+  exact C07.fftfilter_eq_fir_real fft ifft h hm H xs
+
+/-- the hypotheses on the two parameters of the constructor are satisfiable: the model's own `nextpow2` and "zero-pad, then transform" -/
+example (fft : Array (Cx ℝ) → Array (Cx ℝ)) :
+    (∀ k : ℕ, (fun z : Int => (nextpow2 z.toNat : Int)) (k : Int) = (nextpow2 k : Int)) ∧
+    (∀ (x : Array (Cx ℝ)) (n : ℕ), x.size ≤ n → (fun x (z : Int) => fft (zeropad (0 : Cx ℝ) x z.toNat)) x (n : Int) = fft (zeropad (0 : Cx ℝ) x n)) :=
+  ⟨fun k => by simp, fun x n _ => by simp⟩
+
+end
+/-! END steps3 fftfilter -/
 
 end Dsp.C07Gen
